@@ -104,10 +104,11 @@ func casesFor(c ksrig.FaultCall, extraTorn int) []faultCase {
 }
 
 type monitor struct {
-	r   *ev.Run
-	fx  *fixtures
-	rfx *ringFixtures // ring-level layer (ring.go)
-	mu  sync.Mutex
+	r     *ev.Run
+	fx    *fixtures
+	rfx   *ringFixtures // ring-level layer (ring.go)
+	mu    sync.Mutex
+	hangs hangCaps // guard.go
 }
 
 // Run is the C08 monitor.
@@ -423,6 +424,7 @@ type caseCtx struct {
 	call ksrig.FaultCall
 	fc   faultCase
 	tgt  map[string]bool
+	trk  *stepTracker // guard.go: which step of the case is running
 }
 
 func (c *caseCtx) sig(phase, symptom string) string {
@@ -461,16 +463,14 @@ func (m *monitor) runFault(j job, base *world, ff *ffResult, call ksrig.FaultCal
 	r := m.r
 	r.Case()
 	c := &caseCtx{j: j, ff: ff, call: call, fc: fc, tgt: j.op.targets(!isV1(j.kind))}
-	done := make(chan struct{})
-	go func() {
-		defer close(done)
-		m.runFaultInner(c, base)
-	}()
-	select {
-	case <-done:
-	case <-time.After(60 * time.Second):
-		r.Inconclusive(fmt.Sprintf("watchdog: %s call#%d %s %s did not finish in 60 s", describe(j.fmtName(), j.hist.name, j.op), call.Seq, call.Class(), fc.modeName()))
+	detail := func() map[string]interface{} {
+		return map[string]interface{}{"format": j.fmtName(), "history": j.hist.name, "operation": j.op.name, "fault_call_index": call.Seq, "fault_call": call.Class(),
+			"fault_mode": fc.modeName(), "fault_free_trace": classes(ff.trace), "fault_level": redisLevel(j)}
 	}
+	m.guardCase("c08-ops", j.fmtName(), j.op.name, call.Class(), fc.modeName(), detail, func(t *stepTracker) {
+		c.trk = t
+		m.runFaultInner(c, base)
+	})
 }
 
 func (m *monitor) runFaultInner(c *caseCtx, base *world) {
@@ -492,7 +492,9 @@ func (m *monitor) runFaultInner(c *caseCtx, base *world) {
 		h.cmd.alt = fc.alt
 	}
 	h.setPlan(ksrig.FaultPlan{At: fc.k, Mode: fc.mode, TornBytes: fc.torn})
+	c.trk.step("operation")
 	out := ksrig.FaultRun(func() error { return j.op.run(h) })
+	c.trk.step("after-operation")
 	got := h.calls()
 	if j.cmd {
 		h.cmd.disarm()
@@ -541,6 +543,7 @@ func (m *monitor) runFaultInner(c *caseCtx, base *world) {
 			r.Count("redis_crash_snapshots_probed", 1)
 		}
 		// restart: a fresh handle on the snapshot
+		c.trk.step("reads and listings after the crash")
 		hp := snap.openPlain()
 		d := hp.dump(allClients)
 		hp.close()
@@ -551,8 +554,10 @@ func (m *monitor) runFaultInner(c *caseCtx, base *world) {
 			return
 		}
 		// follow-up write: retry the operation on the restarted keystore
+		c.trk.step("retried write after the crash")
 		h2 := snap.openPlain()
 		ro := ksrig.FaultRun(func() error { return j.op.run(h2) })
+		c.trk.step("reads and listings after the retry")
 		h2.close()
 		if m.checkRetry(c, "retry-after-crash", ro, snap) {
 			h3 := snap.openPlain()
@@ -566,6 +571,7 @@ func (m *monitor) runFaultInner(c *caseCtx, base *world) {
 		if out.Err != nil {
 			r.Count("error_returns", 1)
 			// the process lives on: same handle
+			c.trk.step("reads and listings after the error (same handle)")
 			dSame = h.dump(allClients)
 			r.Count("error_returns_probed_same_handle", 1)
 			if isRedis(j.kind) {
@@ -578,6 +584,7 @@ func (m *monitor) runFaultInner(c *caseCtx, base *world) {
 		} else {
 			r.Count("fault_absorbed_op_succeeded", 1)
 		}
+		c.trk.step("reads and listings after the error (fresh handle)")
 		hp := w.openPlain()
 		d := hp.dump(allClients)
 		hp.close()
@@ -592,7 +599,9 @@ func (m *monitor) runFaultInner(c *caseCtx, base *world) {
 			return
 		}
 		h.setPlan(ksrig.FaultPlan{})
+		c.trk.step("retried write after the error (same handle)")
 		ro := ksrig.FaultRun(func() error { return j.op.run(h) })
+		c.trk.step("reads and listings after the retry")
 		if m.checkRetry(c, "retry-after-error", ro, w) {
 			h3 := w.openPlain()
 			d3 := h3.dump(allClients)
